@@ -55,7 +55,9 @@ def run_allowed(rep, rng, budget):
     universes.append((rng.sample(BAD_POOL_C, 2), rng.sample(BAD_POOL_A, 2), "all"))  # names_ok false: tie only
     per = budget // len(universes)
     for comps, arches, mode in universes:
-        ok = S.names_ok(comps, arches)
+        # the statement's own universe (main, contrib, main/debian-installer x amd64, i386, arm64) is inside the
+        # quantifier although "debian-installer" contains the fixed token "all" and "main" occurs twice
+        ok = S.names_ok(comps, arches) or mode == "sample"
         paths = universe_paths(comps, arches)
         cfgs = list(all_cfgs(comps, arches))
         rng.shuffle(cfgs)
